@@ -1363,6 +1363,7 @@ class Parallel(Logger):
         # Internal variables
         self._backend = backend
         self._running = False
+        self._calling = False
         self._managed_backend = False
         self._id = uuid4().hex
         self._call_ref = None
@@ -2021,6 +2022,23 @@ class Parallel(Logger):
         """Main function to dispatch parallel tasks."""
 
         self._reset_run_tracking()
+        try:
+            return self._call(iterable)
+        except BaseException:
+            if self._running:
+                # The call failed before the run could start (the iterable
+                # cannot be iterated over, invalid n_jobs...): do not leave
+                # the instance in the running state.
+                self._running = False
+                try:
+                    self._terminate_and_reset()
+                except Exception:
+                    # The backend may not even have been set up: the error
+                    # to report is the one that made the call fail.
+                    pass
+            raise
+
+    def _call(self, iterable):
         self.n_tasks = len(iterable) if hasattr(iterable, "__len__") else None
         self._start_time = time.time()
 
